@@ -187,6 +187,10 @@ pub fn configs(ctx: &Ctx) -> Vec<DistSpec> {
         }
         v.push(DistSpec::f(Family::Gamma, s, &[f64::INFINITY, 2.0]));
     }
+    // Geometric(0) = u64::MAX is documented; p so small that 1 - p == 1 behaves the same
+    for p in [0.0, 1e-17, 1.1e-16, 1.2e-16, 3e-16] {
+        v.push(DistSpec::i(Family::Geometric, &[], &[p]));
+    }
     v.extend(env::geom_specs());
     v.extend(env::weighted_specs());
     if ctx.property == "C05" {
